@@ -105,4 +105,272 @@ theorem held_lock_has_release (s : St) (h : s.heldUntil ≠ none) : ∃ u, s.hel
   | none => exact absurd hs h
   | some u => exact ⟨u, rfl⟩
 
+/-! ### the same facts over whole executions (any label sequence with non-decreasing times) -/
+
+def lblTime : Lbl → Nat
+  | .inp t _ => t
+  | .timer t => t
+
+def txTime : Obs → Option Nat
+  | .tx t _ => some t
+  | _ => none
+
+/-- a whole execution: the labels one after the other -/
+def execL (cfg : Cfg) : St → List Lbl → St × List Obs
+  | s, [] => (s, [])
+  | s, l :: ls =>
+    let r := stepL cfg s l
+    let r' := execL cfg r.1 ls
+    (r'.1, r.2 ++ r'.2)
+
+/-- label times never go back, starting from `n` -/
+def timesFrom : Nat → List Lbl → Prop
+  | _, [] => True
+  | n, l :: ls => n ≤ lblTime l ∧ timesFrom (lblTime l) ls
+
+theorem transmit_tx_time (cfg : Cfg) (s : St) (t pid : Nat) :
+    ∀ o ∈ (transmit cfg s t pid).2.1, txTime o = some t := by
+  unfold transmit
+  split <;> simp [txTime]
+
+/-- everything `grant` transmits carries the time of the grant; with a positive pause it transmits
+    at most once, and then holds the lock until `t + pause` -/
+theorem grant_tx (cfg : Cfg) (t : Nat) : ∀ (fuel : Nat) (s : St),
+    (∀ o ∈ (grant cfg fuel s t).2, isTx o = true → txTime o = some t) ∧
+    (cfg.pause > 0 → (∃ o ∈ (grant cfg fuel s t).2, isTx o = true) →
+      (grant cfg fuel s t).1.heldUntil = some (t + cfg.pause)) := by
+  intro fuel
+  induction fuel with
+  | zero => intro s; simp [grant]
+  | succ fuel ih =>
+    intro s
+    obtain ⟨held, ws, sb, rt, pk, so, sf, ic⟩ := s
+    unfold grant
+    cases held with
+    | some u => simp
+    | none =>
+      cases ws with
+      | nil => simp
+      | cons w rest =>
+        simp only
+        cases w with
+        | send pid =>
+          simp only
+          by_cases hk : (so && !sf) = true
+          · by_cases hp : cfg.pause > 0
+            · have htr : transmit cfg ⟨none, rest, sb, rt, pk, so, sf, ic⟩ t pid =
+                  (⟨some (t + cfg.pause), rest, sb, pushRetain cfg.cap rt pid, pk, so, sf, ic⟩, [.tx t pid], true) := by
+                simp [transmit, hk, hp]
+              rw [htr]
+              simp only
+              rw [grant_while_held cfg fuel _ t (t + cfg.pause) rfl]
+              refine ⟨?_, fun _ _ => rfl⟩
+              intro o ho hx
+              simp only [List.append_nil, List.mem_append, List.mem_cons, List.not_mem_nil, or_false] at ho
+              rcases ho with rfl | rfl
+              · rfl
+              · simp [isTx] at hx
+            · have hp0 : cfg.pause = 0 := by omega
+              have htr : transmit cfg ⟨none, rest, sb, rt, pk, so, sf, ic⟩ t pid =
+                  (⟨none, rest, sb, pushRetain cfg.cap rt pid, pk, so, sf, ic⟩, [.tx t pid], true) := by
+                simp [transmit, hk, hp0]
+              rw [htr]
+              simp only
+              refine ⟨?_, fun h => absurd h hp⟩
+              intro o ho hx
+              simp only [List.mem_append, List.mem_cons, List.not_mem_nil, or_false] at ho
+              rcases ho with (rfl | rfl) | ho
+              · rfl
+              · simp [isTx] at hx
+              · exact (ih _).1 o ho hx
+          · have hf : transmit cfg ⟨none, rest, sb, rt, pk, so, sf, ic⟩ t pid = (⟨none, rest, sb, rt, pk, so, sf, ic⟩, [], false) := by
+              simp only [transmit]
+              rw [if_neg hk]
+            rw [hf]
+            simp only [List.nil_append]
+            refine ⟨?_, ?_⟩
+            · intro o ho hx
+              simp only [List.cons_append, List.nil_append, List.mem_cons] at ho
+              rcases ho with rfl | ho
+              · simp [isTx] at hx
+              · exact (ih _).1 o ho hx
+            · intro hp ⟨o, ho, hx⟩
+              simp only [List.cons_append, List.nil_append, List.mem_cons] at ho
+              rcases ho with rfl | ho
+              · simp [isTx] at hx
+              · exact (ih _).2 hp ⟨o, ho, hx⟩
+        | resend pid more =>
+          simp only
+          by_cases hk : (so && !sf) = true
+          · by_cases hp : cfg.pause > 0
+            · have htr : transmit cfg ⟨none, rest, sb, rt, pk, so, sf, ic⟩ t pid =
+                  (⟨some (t + cfg.pause), rest, sb, pushRetain cfg.cap rt pid, pk, so, sf, ic⟩, [.tx t pid], true) := by
+                simp [transmit, hk, hp]
+              rw [htr]
+              simp only
+              cases more with
+              | nil =>
+                simp only
+                rw [grant_while_held cfg fuel _ t (t + cfg.pause) rfl]
+                refine ⟨?_, fun _ _ => rfl⟩
+                intro o ho _
+                simp only [List.append_nil, List.mem_cons, List.not_mem_nil, or_false] at ho
+                subst ho; rfl
+              | cons p ps =>
+                simp only
+                rw [grant_while_held cfg fuel _ t (t + cfg.pause) rfl]
+                refine ⟨?_, fun _ _ => rfl⟩
+                intro o ho _
+                simp only [List.append_nil, List.mem_cons, List.not_mem_nil, or_false] at ho
+                subst ho; rfl
+            · have hp0 : cfg.pause = 0 := by omega
+              have htr : transmit cfg ⟨none, rest, sb, rt, pk, so, sf, ic⟩ t pid =
+                  (⟨none, rest, sb, pushRetain cfg.cap rt pid, pk, so, sf, ic⟩, [.tx t pid], true) := by
+                simp [transmit, hk, hp0]
+              rw [htr]
+              simp only
+              refine ⟨?_, fun h => absurd h hp⟩
+              intro o ho hx
+              simp only [List.mem_append, List.mem_cons, List.not_mem_nil, or_false] at ho
+              rcases ho with rfl | ho
+              · rfl
+              · exact (ih _).1 o ho hx
+          · have hf : transmit cfg ⟨none, rest, sb, rt, pk, so, sf, ic⟩ t pid = (⟨none, rest, sb, rt, pk, so, sf, ic⟩, [], false) := by
+              simp only [transmit]
+              rw [if_neg hk]
+            rw [hf]
+            simp only [List.nil_append]
+            exact ih _
+        | busy w =>
+          simp only
+          rw [grant_while_held cfg fuel _ t (t + w) rfl]
+          simp
+        | lost k =>
+          simp only
+          exact ih _
+
+theorem settle_held (r : St × List Obs) : (settle r).1.heldUntil = r.1.heldUntil := by
+  unfold settle; split <;> rfl
+
+theorem settle_obs (r : St × List Obs) : (settle r).2 = r.2 := by
+  unfold settle; split <;> rfl
+
+/-- one step: whatever is transmitted carries the step's time; with a positive pause a step that
+    transmits leaves the lock held until that time plus the pause -/
+theorem step_tx (cfg : Cfg) (s : St) (l : Lbl) :
+    (∀ o ∈ (stepL cfg s l).2, isTx o = true → txTime o = some (lblTime l)) ∧
+    (cfg.pause > 0 → (∃ o ∈ (stepL cfg s l).2, isTx o = true) →
+      (stepL cfg s l).1.heldUntil = some (lblTime l + cfg.pause)) := by
+  have none_case : ∀ (r : St × List Obs), (∀ o ∈ r.2, isTx o = false) →
+      (∀ o ∈ (settle r).2, isTx o = true → txTime o = some (lblTime l)) ∧
+      (cfg.pause > 0 → (∃ o ∈ (settle r).2, isTx o = true) →
+        (settle r).1.heldUntil = some (lblTime l + cfg.pause)) := by
+    intro r h
+    rw [settle_obs]
+    refine ⟨fun o ho hx => ?_, fun _ ⟨o, ho, hx⟩ => ?_⟩ <;> (have := h o ho; simp [this] at hx)
+  have grant_case : ∀ (fuel : Nat) (s' : St) (t : Nat), lblTime l = t →
+      (∀ o ∈ (settle (grant cfg fuel s' t)).2, isTx o = true → txTime o = some (lblTime l)) ∧
+      (cfg.pause > 0 → (∃ o ∈ (settle (grant cfg fuel s' t)).2, isTx o = true) →
+        (settle (grant cfg fuel s' t)).1.heldUntil = some (lblTime l + cfg.pause)) := by
+    intro fuel s' t ht
+    rw [settle_obs, settle_held, ht]
+    exact grant_tx cfg t fuel s'
+  cases l with
+  | timer t =>
+    simp only [stepL, fire]
+    cases hh : s.heldUntil with
+    | none => exact none_case _ (by simp)
+    | some u =>
+      simp only
+      split
+      · exact grant_case _ _ t rfl
+      · exact none_case _ (by simp)
+  | inp t i =>
+    cases i <;> simp only [stepL, applyIn]
+    case send pid => exact grant_case _ _ t rfl
+    case rind pid => split <;> exact none_case _ (by simp [isTx])
+    case rbusy w =>
+      split
+      · exact none_case _ (by simp [isTx])
+      · exact grant_case _ _ t rfl
+    case rlost k =>
+      split
+      · exact none_case _ (by simp [isTx])
+      · exact grant_case _ _ t rfl
+    case read =>
+      split
+      · exact none_case _ (by simp [isTx])
+      · split <;> exact none_case _ (by simp [isTx])
+    case close => exact none_case _ (by simp)
+    case sockfail b => exact none_case _ (by simp)
+    case tick => exact none_case _ (by simp)
+
+/-- a held lock stays held until its release time has come -/
+theorem hold_kept_or_due (cfg : Cfg) (s : St) (u : Nat) (h : s.heldUntil = some u) (l : Lbl) :
+    (stepL cfg s l).1.heldUntil = some u ∨ u ≤ lblTime l := by
+  by_cases ht : lblTime l < u
+  · left
+    exact (silent_while_held cfg s u h l (by cases l <;> simpa [lblTime] using ht)).1
+  · right; omega
+
+/-- **the lock's promise over a whole execution**: once the lock is held until `u`, no label
+    sequence whose times never go back makes a routing indication leave the client before `u` —
+    whatever the Sends, busy / lost indications, reads and timer expiries, in any number -/
+theorem no_tx_before_release (cfg : Cfg) : ∀ (ls : List Lbl) (s : St) (u n : Nat),
+    s.heldUntil = some u → timesFrom n ls →
+    ∀ o ∈ (execL cfg s ls).2, isTx o = true → ∃ t, txTime o = some t ∧ u ≤ t := by
+  intro ls
+  induction ls with
+  | nil => intro s u n _ _ o ho; simp [execL] at ho
+  | cons l ls ih =>
+    intro s u n h ht o ho hx
+    simp only [execL, List.mem_append] at ho
+    obtain ⟨htl, htrest⟩ := ht
+    rcases ho with ho | ho
+    · -- transmitted by this very step: then the step's time is not before u
+      have hnow := (step_tx cfg s l).1 o ho hx
+      refine ⟨lblTime l, hnow, ?_⟩
+      by_cases hlt : lblTime l < u
+      · have := (silent_while_held cfg s u h l (by cases l <;> simpa [lblTime] using hlt)).2 o ho
+        simp [this] at hx
+      · omega
+    · -- transmitted later
+      rcases hold_kept_or_due cfg s u h l with hk | hdue
+      · exact ih _ u (lblTime l) hk htrest o ho hx
+      · -- the release time has passed: every later step's time is at least `u`
+        have key : ∀ (ls : List Lbl) (s' : St) (m : Nat), u ≤ m → timesFrom m ls →
+            ∀ o ∈ (execL cfg s' ls).2, isTx o = true → ∃ t, txTime o = some t ∧ u ≤ t := by
+          intro ls
+          induction ls with
+          | nil => intro s' m _ _ o ho; simp [execL] at ho
+          | cons l' ls' ih' =>
+            intro s' m hm ht' o ho hx
+            simp only [execL, List.mem_append] at ho
+            obtain ⟨h1, h2⟩ := ht'
+            rcases ho with ho | ho
+            · exact ⟨lblTime l', (step_tx cfg s' l').1 o ho hx, by omega⟩
+            · exact ih' _ (lblTime l') (by omega) h2 o ho hx
+        exact key ls _ (lblTime l) hdue htrest o ho hx
+
+/-- **pacing over a whole execution**: after a transmission at time `t`, nothing is transmitted
+    before `t + pause`, however many Sends are pending and whatever arrives -/
+theorem pacing_global (cfg : Cfg) (hp : cfg.pause > 0) (s : St) (l : Lbl) (ls : List Lbl)
+    (htx : ∃ o ∈ (stepL cfg s l).2, isTx o = true) (ht : timesFrom (lblTime l) ls) :
+    ∀ o ∈ (execL cfg (stepL cfg s l).1 ls).2, isTx o = true →
+      ∃ t, txTime o = some t ∧ lblTime l + cfg.pause ≤ t :=
+  no_tx_before_release cfg ls _ _ _ ((step_tx cfg s l).2 hp htx) ht
+
+/-- **back-off over a whole execution**: once the serve loop has been granted the lock for a busy
+    indication at time `t` with effective wait `w` (announced + random part, capped at 50 ms),
+    nothing is transmitted before `t + w` -/
+theorem backoff_global (cfg : Cfg) (s : St) (t w : Nat) (rest : List Waiter) (fuel : Nat) (ls : List Lbl)
+    (hf : s.heldUntil = none) (hw : s.waiters = .busy w :: rest) (ht : timesFrom t ls) :
+    ∀ o ∈ (execL cfg (grant cfg (fuel + 2) s t).1 ls).2, isTx o = true →
+      ∃ t', txTime o = some t' ∧ t + w ≤ t' :=
+  no_tx_before_release cfg ls _ _ _ (busy_takes_lock cfg s t w rest fuel hf hw).1 ht
+
+/-! non-vacuity: a Send, a second Send during the pause, the pause timer -/
+example : ((execL { pause := 20, retain := 4 } {} [.inp 0 (.send 1), .inp 5 (.send 2), .timer 20]).2.filter isTx) =
+    [.tx 0 1, .tx 20 2] := by decide
+
 end Props.C13
